@@ -1,0 +1,88 @@
+//go:build verif
+
+// Contracts for package bus, checked by /verif/govc (see /verif/DESIGN.md).
+// This file contains comments only and is compiled only with the build tag "verif".
+
+package bus
+
+// Ghost call counters on abstract collaborators (definitions, not assumptions about behaviour):
+// terminated counts OnTerminate invocations on an actor; errsent / replies count the error and
+// reply messages sent through a channel.
+//@ ghostfield terminated int
+//@ ghostfield errsent int
+//@ ghostfield replies int
+//@ ghostfield received int
+
+//@ interface (a Actor) OnTerminate()
+//@   trusted
+//@   modifies everything
+//@   ensures a.terminated == old(a.terminated) + 1
+//@ interface (a Actor) Activate(activation Activation) (err error)
+//@   trusted
+//@   modifies everything
+//@ interface (a Actor) Receive(m *net.Message, from Channel) (err error)
+//@   trusted
+//@   modifies everything
+//@   ensures a.received == old(a.received) + 1
+
+//@ interface (c Channel) SendError(msg *net.Message, e error) (err error)
+//@   trusted
+//@   modifies c.errsent
+//@   ensures c.errsent == old(c.errsent) + 1
+//@ interface (c Channel) SendReply(msg *net.Message, response []byte) (err error)
+//@   trusted
+//@   modifies c.replies
+//@   ensures c.replies == old(c.replies) + 1
+
+//@ func NewMailBox(r Receiver) (result MailBox)
+//@   trusted
+//@   ensures result != nil && fresh(result)
+//@ func objectActivation(service *serviceImpl, session Session, serviceID uint32, objectID uint32) (result Activation)
+//@   trusted
+//@   pure
+
+// ---- serviceImpl: object table of a service (C16)
+//@ guarded_by (s *serviceImpl) s.RWMutex: s.objects, s.boxes, s.objects[*], s.boxes[*]
+//@   monitor s.objects != nil && s.boxes != nil
+//@   monitor forall k uint32 {has(s.objects, k)} :: has(s.objects, k) ==> s.objects[k] != nil
+
+//@ func (s *serviceImpl) Remove(objectID uint32) (err error)
+//@   tags C16
+//@   requires !s.RWMutex.lockw && s.RWMutex.lockr == 0
+//@   modifies everything
+//@   ensures !s.RWMutex.lockw && s.RWMutex.lockr == 0
+//@   ensures[C16] err == nil ==> at_lock(has(s.objects, objectID)) && !at_unlock(has(s.objects, objectID)) && !at_unlock(has(s.boxes, objectID))
+//@   ensures[C16] err == nil ==> at_lock(s.objects[objectID]).terminated == at_lock(s.objects[objectID].terminated) + 1
+//@   ensures[C16] err != nil ==> !at_lock(has(s.objects, objectID))
+//@   ensures[C16] forall k uint32 :: k != objectID ==> (at_unlock(has(s.objects, k)) <==> at_lock(has(s.objects, k))) && (at_unlock(has(s.boxes, k)) <==> at_lock(has(s.boxes, k)))
+//@   ensures[C16] err != nil ==> forall k uint32 :: (at_unlock(has(s.objects, k)) <==> at_lock(has(s.objects, k))) && (at_unlock(has(s.boxes, k)) <==> at_lock(has(s.boxes, k)))
+
+//@ func (s *serviceImpl) Receive(m *net.Message, from Channel) (err error)
+//@   tags C16
+//@   requires !s.RWMutex.lockw && s.RWMutex.lockr == 0
+//@   requires m != nil && from != nil
+//@   modifies everything
+//@   ensures !s.RWMutex.lockw && s.RWMutex.lockr == 0
+//@   ensures[C16] !at_unlock(has(s.boxes, m.Header.Object)) ==> from.errsent == old(from.errsent) + 1
+
+//@ func (s *serviceImpl) Terminate() (err error)
+//@   tags C16
+//@   requires !s.RWMutex.lockw && s.RWMutex.lockr == 0
+//@   modifies everything
+//@   ensures !s.RWMutex.lockw && s.RWMutex.lockr == 0 && err == nil
+//@   loop 1:
+//@     invariant !s.RWMutex.lockw && s.RWMutex.lockr == 1
+//@     invariant s.objects != nil && s.objects == at_lock(s.objects) && (forall k uint32 {has(s.objects, k)} :: has(s.objects, k) ==> s.objects[k] != nil)
+
+// Add: the new identifier is free at the moment it is reserved (for a service whose first object
+// has id 1, which is how every service is created), and a failed activation leaves nothing behind.
+//@ func (s *serviceImpl) Add(obj Actor) (index uint32, err error)
+//@   tags C16
+//@   requires !s.RWMutex.lockw && s.RWMutex.lockr == 0
+//@   requires obj != nil
+//@   modifies everything
+//@   ensures !s.RWMutex.lockw && s.RWMutex.lockr == 0
+//@   ensures[C16] err != nil ==> !at_unlock(has(s.objects, index)) && !at_unlock(has(s.boxes, index))
+//@   ensures[C16] err == nil ==> at_unlock(has(s.objects, index)) && at_unlock(s.objects[index]) == obj
+//@   call Unlock#2: assert[C16] at_lock(has(s.objects, 1)) ==> !at_lock(has(s.objects, index))
+//@   call NewMailBox#1: assert[C16] at_lock(has(s.objects, 1)) ==> !at_lock(has(s.objects, index))
